@@ -724,6 +724,10 @@ G_ATOMS: List[Any] = ["ga", "gb", {"type": "ga"}, {"type": "gp", "params": {"k":
                       {"type": "stateIn", "params": {"state": "#m.p.c"}},
                       {"type": "stateIn", "params": {"value": "p.d"}},
                       {"type": "stateIn", "params": {"state": "m.q.u"}},
+                      # active NON-leaf states: a compound state, a region by partial path, the root
+                      {"type": "stateIn", "params": {"state": "#m.p"}},
+                      {"type": "stateIn", "params": {"state": "q"}},
+                      {"type": "stateIn", "params": {"state": "#m"}},
                       "gmissing"]
 
 
